@@ -22,12 +22,25 @@ type EntEnv struct {
 	Key     *storetypes.KVStoreKey
 	Escrow  sdk.AccAddress
 	Params  enttypes.Params
-	NSign   int // number of authorised signers (pool actors 3,4,5)
+	NSign   int // number of authorised signers
+	NPool   int // how many of them are pool signers Signer(0..NPool-1)
 	Denom   string
 }
 
 // Signer i of the authorised-signer pool.
 func Signer(i int) sdk.AccAddress { return Addr(3 + i) }
+
+// LongOver0: a 32-byte address (the length of module-derived accounts) made of actor 0's 20 bytes
+// followed by the 30 bits of actor 0's bech32 checksum: its bech32 spelling therefore STARTS WITH
+// the complete bech32 spelling of actor 0. Authorisation must compare addresses, not spellings.
+func LongOver0() sdk.AccAddress {
+	b := make([]byte, 32)
+	for k := 0; k < 20; k++ {
+		b[k] = 0x11
+	}
+	b[20], b[21], b[22], b[23] = 0x36, 0x20, 0xba, 0x24
+	return sdk.AccAddress(b)
+}
 
 // NewEntEnv: params = {denom nund, k ∈ 1..3 authorised signers from the pool, symbolic MinAccepts
 // in 1..k, symbolic DecisionTimeLimit >= 1}; enterprise module account with the permissions the
@@ -35,7 +48,10 @@ func Signer(i int) sdk.AccAddress { return Addr(3 + i) }
 func NewEntEnv(now time.Time, checkTx bool) *EntEnv { return NewEntEnvOn(NewEnv(now, checkTx), 0) }
 
 // NewEntEnvOn: nsign = 0 lets the number of authorised signers vary over 1..3.
-func NewEntEnvOn(e *Env, nsign int) *EntEnv {
+func NewEntEnvOn(e *Env, nsign int) *EntEnv { return NewEntEnvLong(e, nsign, false) }
+
+// NewEntEnvLong: withLong adds LongOver0() to the authorised signers.
+func NewEntEnvLong(e *Env, nsign int, withLong bool) *EntEnv {
 	escrow := e.Bank.AddModule(enttypes.ModuleName, authtypes.Minter, authtypes.Staking)
 	e.Bank.Block(escrow)
 	key := storetypes.NewKVStoreKey(enttypes.StoreKey)
@@ -48,6 +64,11 @@ func NewEntEnvOn(e *Env, nsign int) *EntEnv {
 	var ss []string
 	for i := 0; i < ee.NSign; i++ {
 		ss = append(ss, Signer(i).String())
+	}
+	ee.NPool = ee.NSign
+	if withLong {
+		ss = append(ss, LongOver0().String())
+		ee.NSign++ // counts towards the number of signers; pool signers keep their indices
 	}
 	ee.Params = enttypes.Params{EntSigners: strings.Join(ss, ","), Denom: "nund", MinAccepts: rt.U64("p.minAccepts"), DecisionTimeLimit: rt.U64("p.decisionLimit")}
 	rt.Assume(ee.Params.Validate() == nil)
@@ -222,14 +243,14 @@ func H_C03_Raise() {
 // non-signer.
 func H_C03_Decide() {
 	now := AnyBlockTime("now")
-	ee := NewEntEnv(now, false)
+	ee := NewEntEnvLong(NewEnv(now, false), 0, rt.Choose(2) == 1)
 	k, ctx := ee.K, ee.Ctx
 	highest := rt.U64("highest")
 	id := rt.U64("po.id")
 	rt.Assume(rt.And(id >= 1, id < highest))
 	k.SetHighestPurchaseOrderID(ctx, highest)
 	status := enttypes.PurchaseOrderStatus(1 + rt.Choose(4)) // raised, accepted, rejected, completed
-	maxDec := ee.NSign
+	maxDec := ee.NPool
 	if maxDec > 2 {
 		maxDec = 2
 	}
@@ -247,7 +268,7 @@ func H_C03_Decide() {
 	authorised := false
 	if who < 3 {
 		signerAddr = Signer(who)
-		authorised = who < ee.NSign
+		authorised = who < ee.NPool
 	} else {
 		signerAddr = Addr(0)
 	}
@@ -294,7 +315,7 @@ func H_C03_Decide() {
 
 func H_C03_Whitelist() {
 	now := AnyBlockTime("now")
-	ee := NewEntEnv(now, false)
+	ee := NewEntEnvLong(NewEnv(now, false), 0, rt.Choose(2) == 1)
 	k, ctx := ee.K, ee.Ctx
 	wl0, wl1 := rt.Choose(2) == 1, rt.Choose(2) == 1
 	if wl0 {
@@ -308,7 +329,7 @@ func H_C03_Whitelist() {
 	authorised := false
 	if who < 3 {
 		signerAddr = Signer(who)
-		authorised = who < ee.NSign
+		authorised = who < ee.NPool
 	} else {
 		signerAddr = Addr(0)
 	}
